@@ -315,7 +315,8 @@ impl<W: 'static, R: 'static, T: 'static> XSequence<W, R, T> {
     }
 
     pub(super) fn is_empty(&self) -> bool {
-        matches!(self, Self::Empty)
+        // a lazy sequence (a map, zip, ... of nothing) can have no elements without being `Empty`
+        self.len() == Some(0)
     }
 
     fn sorted(
